@@ -30,6 +30,7 @@ RULE = (
     "SHA-256"    "; 4% of the runs are programs of 12-30 variables solved through real z3 and judged by a sound but incomplete oracle built "
     "from known models (hidden witness and those of its neighbours that satisfy every constraint): True must be returned, a key on "
     "which two known models disagree must be None, a reported value must be the witness's value"
+    "; fault injection in one scenario out of ten: the backend dies at the n-th call of one solve() (n<=4, torn result write), z3 check() answers unknown or raises, the external solver dies without a reply, add_answer_key calls are rejected half-way (duplicate key after variables that are not keys yet: those become 'maybe keys'); the same Solver is queried again and checked"
 )
 STATE_MEASURE = "distinct (declarations, key set, model set) triples at solve() time"
 COMPONENTS = {
